@@ -1145,6 +1145,17 @@ def rule_r6(chk, p, t):
     r.guard("announce", d)
 
 
+def rule_r7(chk, p, t):
+    from rules.shared_fresh import rule_factories_fresh
+
+    rule_factories_fresh(
+        chk, p, t, "C18.R7", "every estimate gets a multiple-model filter of its own",
+        "model weights, the per-model filters and the CLOSE flag are the state of one estimate's adaptive estimation.",
+        ["resonaate.estimation.adaptiveEstimationFactory"],
+        "two estimates would prune and re-weight one set of models: the probabilities no longer describe either of them",
+    )
+
+
 def run(chk, p, t):
     chk.explanation = (
         "Static decision of structural necessary conditions of C18: (R1/R2) a path-sensitive typestate "
@@ -1156,7 +1167,7 @@ def run(chk, p, t):
         "documented expressions. NOT decided: Bayes-rule values, underflow beyond the reset, PSD-ness."
     )
     chk.assumptions += ["a normalising form w / sum(w) yields weights summing to one when the sum is finite and non-zero", "numpy.delete returns a new array without the indexed element"]
-    steps = [("C18.R1", rule_r1_r2), ("C18.R3", rule_r3), ("C18.R4", rule_r4), ("C18.R5", rule_r5), ("C18.R6", rule_r6)]
+    steps = [("C18.R1", rule_r1_r2), ("C18.R3", rule_r3), ("C18.R4", rule_r4), ("C18.R5", rule_r5), ("C18.R6", rule_r6), ("C18.R7", rule_r7)]
     for rid, fn in steps:
         if chk.only_rule is not None and chk.only_rule != rid and not (chk.only_rule == "C18.R2" and rid == "C18.R1"):
             continue
